@@ -349,9 +349,9 @@ fn dyn_lengths_shape(items: &[(TreeCodeType, u8)], hlit: usize, hdist: usize) {
     assert!(lit.len() == hlit, "literal/length code has a different number of symbols than HLIT");
     assert!(dist.len() == hdist, "distance code has a different number of symbols than HDIST");
     // the first 250 literal lengths come from the two concrete zero runs; compare the symbolic tail and all distances
-    let mut i = 250;
+    let mut i = if hlit >= 257 { 250 } else { 0 };
     while i < hlit { assert!(lit[i] == exp[i], "literal/length code length differs from the RFC 1951 expansion"); i += 1; }
-    assert!(lit[0] == 0 && lit[137] == 0 && lit[138] == 0 && lit[249] == 0);
+    if hlit >= 257 { assert!(lit[0] == 0 && lit[137] == 0 && lit[138] == 0 && lit[249] == 0); }
     let mut i = 0;
     while i < hdist { assert!(dist[i] == exp[hlit + i], "distance code length differs from the RFC 1951 expansion"); i += 1; }
     core::mem::forget(lit); core::mem::forget(dist); core::mem::forget(enc);
@@ -375,5 +375,18 @@ kproof! {
             dyn_lengths_shape(&[(ZeroLong, 138), (ZeroLong, 112), (Code, c[0]), (Code, c[1]), (Code, c[2]), (Code, c[3]), (Code, c[4]), (Code, c[5]), (Repeat, 6), (ZeroShort, 10)], 257, 15);
         }
         kani::cover!(r == 6 && z == 10, "long shape");
+    }
+}
+
+kproof! {
+    /// K03h-small: the same lemma with the split point at 4 (get_literal_distance_lengths does not depend on HLIT >= 257):
+    /// a harness small enough for its counterexamples to be replayed natively
+    fn k03h_dyn_lengths_expand_small() {
+        let c: [u8; 7] = kani::any();
+        let mut i = 0; while i < 7 { kani::assume(c[i] <= 15); i += 1; }
+        use TreeCodeType::*;
+        dyn_lengths_shape(&[(Code, c[0]), (Code, c[1]), (Code, c[2]), (Code, c[3]), (Code, c[4]), (Code, c[5]), (Code, c[6])], 4, 3);
+        dyn_lengths_shape(&[(Code, c[0]), (Code, c[1]), (Code, c[2]), (Repeat, 4), (ZeroShort, 3), (Code, c[3])], 4, 7);
+        kani::cover!(c[4] == 0 && c[5] == 1 && c[6] == 0, "distance code with a single one-bit symbol that is not symbol 0");
     }
 }
